@@ -7,7 +7,8 @@ SUBS = ["C16", "C16inv", "C16e2e", "C16res"]
 PARALLEL = {"C16e2e": 6, "C16res": 6}
 RULE = ("end to end (exhaustive): Funcs taking a pointer, a map and a slice, each as value / typed nil / untyped nil, and Funcs "
         "taking a func and a chan, run in real sessions (local, bigmachine): encodable arguments build the same slice on every "
-        "executor, unencodable ones make Run fail promptly on bigmachine, nothing crashes or hangs; diff: every pair of location lists of length <= 4 over a 3-letter alphabet (exhaustive in the thorough tier, "
+        "executor, unencodable ones (incl. an argument only the receiving worker cannot decode) make Run fail promptly on bigmachine with the cause, "
+        "not after retries as a lost task, nothing crashes or hangs; diff: every pair of location lists of length <= 4 over a 3-letter alphabet (exhaustive in the thorough tier, "
         "length <= 3 in quick) plus random longer pairs; transport: random well-typed and ill-typed argument lists "
         "over 6 registered Funcs (scalars, strings, slices, maps, structs, pointers, interface parameters holding "
         "registered concrete types, nil, *Result); non-trivial = lists differ / at least one non-scalar argument")
@@ -40,6 +41,9 @@ def gen(r, tier, sub):
                         yield "%s ;; E0 %s %s %s" % (cfg, p, m, xs)
             yield "%s ;; E1 fn" % cfg
             yield "%s ;; E2 ch" % cfg
+            # an argument that encodes on the driver and cannot be decoded by a worker
+            yield "%s ;; E3 ver:1" % cfg
+            yield "%s ;; E3 ver:2" % cfg
         return
     if sub == "C16":
         maxlen = 3 if tier == "quick" else 4
